@@ -9,7 +9,7 @@ use crate::engine::{self, Built};
 use crate::gen::{self, RandCfg};
 use fancy_regex::{Expr, Regex};
 
-pub const VARIANTS: [&str; 15] = [
+pub const VARIANTS: [&str; 18] = [
     "x-mode, one space between tokens, spaced braces",
     "x-mode, mixed whitespace and # comments",
     "(?#..) comments between tokens",
@@ -25,6 +25,9 @@ pub const VARIANTS: [&str; 15] = [
     "(?-m:^) (?-m:$) as \\A \\z (under every flag setting)",
     "atomic group around a quantified atom as possessive suffix (X*?+ for a lazy one)",
     "redundant non-capturing groups around pairs of concatenation members (behaviour only)",
+    "quote-delimited references \\k'N' and group tests (?('N')..)",
+    "quote-delimited relative references \\k'-n' and group tests (?('-n')..)",
+    "relative references \\k<-n> and relative group tests (?(<-n>)..)",
 ];
 
 pub struct Respell {
@@ -71,6 +74,9 @@ pub fn respell(n: &Node, variant: usize) -> String {
         12 => n.to_pattern_with(&PrintOpts { anchors_az: true, ..Default::default() }),
         13 => n.to_pattern_with(&PrintOpts { atomic_as_poss: true, ..Default::default() }),
         14 => n.to_pattern_with(&PrintOpts { redundant_groups: true, ..Default::default() }),
+        15 => n.to_pattern_with(&PrintOpts { quote_refs: 1, ..Default::default() }),
+        16 => n.to_pattern_with(&PrintOpts { quote_refs: 2, ..Default::default() }),
+        17 => n.to_pattern_with(&PrintOpts { quote_refs: 3, ..Default::default() }),
         11 => {
             // only meaningful when nothing else sets flags around the toggled groups
             let nested = n.any(|x| matches!(x, Flags(_, _, c) if c.any(|y| matches!(y, Flags(..) | SetFlags(..) | AnyNl | Assert(A::StartLine) | Assert(A::EndLine))))) || n.any(|x| matches!(x, SetFlags(..)));
@@ -283,10 +289,25 @@ pub fn run(ctx: &RunCtx) -> Outcome {
         cfg.leaves = vec![Lit('a'), Lit('\u{1b}'), Class(false, vec![('0', '9'), ('A', 'F'), ('a', 'f')]), Class(true, vec![('0', '9'), ('A', 'F'), ('a', 'f')]), Any];
         fb.extend(space(&cfg, 3, false));
     }
+    {
+        // runs of three or four literals as the whole body of a look-around / atomic group (where the compiler emits
+        // one literal instruction), alone and next to other things
+        let runs = [vec!['a', 'b', 'c'], vec!['a', 'é', 'b'], vec!['a', 'b', 'a', 'b']];
+        for r in runs {
+            let body = Concat(r.iter().map(|c| Lit(*c)).collect());
+            for w in [Look(Box::new(body.clone()), false, false), Look(Box::new(body.clone()), true, false), Look(Box::new(body.clone()), true, true), Atomic(Box::new(body.clone()))] {
+                fb.push(w.clone());
+                fb.push(Concat(vec![w.clone(), Any]));
+                fb.push(Concat(vec![Lit('a'), Lit('b'), w.clone()]));
+                fb.push(Concat(vec![Group(Box::new(Any)), w.clone(), Backref(1)]));
+            }
+        }
+    }
     let texts = gen::text_set(&gen::SIGMA5, 2, 4);
     let mut ftexts = gen::texts(&['a', 'A', 'B', 'é', 'É', '\n'], 3);
     ftexts.extend(gen::texts(&['a', 'F', 'g', '7', '\u{1b}'], 2));
     ftexts.extend(gen::texts(&['a', 'B', '.', '*', '('], 2));
+    ftexts.extend(["abc", "abca", "aéb", "abab", "ababa", "cabc", "abcabc"].iter().map(|s| s.to_string()));
     // round trip first
     {
         let rt = RoundTrip;
@@ -297,15 +318,26 @@ pub fn run(ctx: &RunCtx) -> Outcome {
             return o;
         }
     }
+    // the transformers added later only touch particular constructs: bases without them would be respelled identically
+    let relevant = |v: usize, x: &Node| -> bool {
+        match v {
+            12 => x.any(|y| matches!(y, Assert(A::StartText | A::EndText))),
+            13 => x.any(|y| matches!(y, Atomic(c) if matches!(&**c, Repeat(_, _, _, Q::Greedy | Q::Lazy)))),
+            14 => x.any(|y| matches!(y, Concat(w) if w.len() >= 2)),
+            15 | 16 | 17 => x.any(|y| matches!(y, Backref(_) | CondGroup(..) | GroupExists(_))),
+            _ => true,
+        }
+    };
     for v in 0..VARIANTS.len() {
         let p = Respell { variant: v };
-        if !stage(ctx, &mut o, &p, &format!("trees N<={} | {}", n, VARIANTS[v]), &bases, &texts) {
+        let pick = |set: &[Node]| -> Vec<Node> { set.iter().filter(|x| relevant(v, x)).cloned().collect() };
+        if !stage(ctx, &mut o, &p, &format!("trees N<={} | {}", n, VARIANTS[v]), &pick(&bases), &texts) {
             return o;
         }
-        if !stage(ctx, &mut o, &p, &format!("context x filler | {}", VARIANTS[v]), &prods, &gen::texts(&['a', 'b', 'c'], 3)) {
+        if !stage(ctx, &mut o, &p, &format!("context x filler | {}", VARIANTS[v]), &pick(&prods), &gen::texts(&['a', 'b', 'c'], 3)) {
             return o;
         }
-        if !stage(ctx, &mut o, &p, &format!("flag groups | {}", VARIANTS[v]), &fb, &ftexts) {
+        if !stage(ctx, &mut o, &p, &format!("flag groups | {}", VARIANTS[v]), &pick(&fb), &ftexts) {
             return o;
         }
     }
